@@ -270,6 +270,15 @@ func stdoutKinds(cmd string) []string {
 func genStdout(rt *rapid.T, kind, reply, name string) string {
 	switch {
 	case kind == "valid":
+		// the same value in the layouts a plugin may print it in
+		switch rp.Pick(rt, "validLayout", "compact", "compact", "compact", "indented", "newline", "padded") {
+		case "indented":
+			return reindent(reply, "  ") + "\n"
+		case "newline":
+			return reply + "\n"
+		case "padded":
+			return "\n\t " + reply + " \n\n"
+		}
 		return reply
 	case kind == "empty":
 		return ""
@@ -357,7 +366,18 @@ func genStderr(rt *rapid.T, kind string, c *Case) string {
 	case "empty":
 		return ""
 	case "structured":
-		return structuredError(c) + rp.Pick(rt, "structuredTail", "", "", "\n")
+		// the same JSON value in the layouts a plugin may print it in: compact, indented over
+		// several lines (json.MarshalIndent / a pretty printer), surrounded by white space
+		e := structuredError(c)
+		switch rp.Pick(rt, "structuredLayout", "compact", "compact", "indented", "indented-tabs", "padded") {
+		case "indented":
+			e = reindent(e, "  ")
+		case "indented-tabs":
+			e = reindent(e, "\t")
+		case "padded":
+			e = "\n  " + e + " "
+		}
+		return e + rp.Pick(rt, "structuredTail", "", "", "\n")
 	case "nonjson":
 		s := structuredError(c)
 		return rp.Pick(rt, "nonjsonErr", "boom", "panic: runtime error: index out of range\n\ngoroutine 1 [running]:\nmain.main()\n",
@@ -369,6 +389,15 @@ func genStderr(rt *rapid.T, kind string, c *Case) string {
 	panic("harness: unknown stderr kind " + kind)
 }
 
+// reindent re-serialises a JSON object over several lines.
+func reindent(compact, indent string) string {
+	var buf bytes.Buffer
+	if err := json.Indent(&buf, []byte(compact), "", indent); err != nil {
+		panic("harness: " + err.Error())
+	}
+	return buf.String()
+}
+
 // genBase draws what every case has: name, command, access path, a valid reply, an error triple.
 func genBase(rt *rapid.T, cmd string) *Case {
 	c := &Case{Name: genName(rt), Via: rp.Pick(rt, "via", "new", "manager"), Cmd: cmd, Out: "valid", Err: "empty", Timing: "immediate", Ctx: "background"}
@@ -378,6 +407,9 @@ func genBase(rt *rapid.T, cmd string) *Case {
 	c.want = genReply(rt, c.Cmd, c.Name)
 	c.Reply = mustJSON(c.want)
 	c.Stdout = c.Reply
+	if rapid.IntRange(0, 3).Draw(rt, "replyIndented") == 0 { // a valid reply pretty-printed over several lines is the same reply
+		c.Stdout = reindent(c.Reply, "  ") + "\n"
+	}
 	genError(rt, c)
 	return c
 }
@@ -456,6 +488,9 @@ func TestMain(m *testing.M) {
 
 type sandbox struct {
 	root, dir, exe, marker, pidFile string
+	// base, when set, is the context every call of this sandbox derives its own context from
+	// (used to hand the library a logger that doubles as a scheduling point)
+	base context.Context
 }
 
 // prepare builds <root>/<name>/notation-<name> + behaviour.json for the case.
@@ -592,6 +627,9 @@ func request(cmd string) func(ctx context.Context, p pf.Plugin) (any, error) {
 func (sb *sandbox) call(c *Case) *result {
 	r := &result{}
 	bg := context.Background()
+	if sb.base != nil {
+		bg = sb.base
+	}
 	var p pf.Plugin
 	var err error
 	if c.Via == "manager" {
